@@ -337,7 +337,8 @@ class CallMixin:
         self.call_depth = 0
         self.pending = []
         self.paths = 0
-        self.assumed_contracts = set()
+        if not hasattr(self, "assumed_contracts"):
+            self.assumed_contracts = set()     # accumulated over all targets of a run (reported as assumptions)
         self.guard_stack = []
         if not hasattr(self, "engine_lemmas"):
             self.engine_lemmas = set()
